@@ -36,7 +36,7 @@ class ListType(MichelsonType, prim='list', args_len=1):
     @staticmethod
     def from_items(items: List[MichelsonType]):
         assert len(items) > 0, 'cannot instantiate from empty list'
-        item_type = type(items[0])
+        item_type = items[0].get_anon_type()
         for item in items[1:]:
             item_type.assert_type_equal(item.get_anon_type())
         cls = ListType.create_type(args=[item_type])
